@@ -78,8 +78,9 @@ CLAIMED = {
         "TLC checks that every operation from EVERY valid representation state (capacity 1..3 quick / 1..4 thorough) "
         "refines the ideal queue (return value, content, views, no dead slot exposed); every such (state, operation) pair "
         "is executed on the real types over four storage kinds plus seeded random histories (capacity up to 64), and TLC "
-        "validates every logged call, view and raw part against the ideal queue.",
-   note="Trusted: TLC, the harness loggers, i32 as representative element type. Memory safety is observed only via guard "
+        "validates every logged call, view and raw part against the ideal queue. Thorough adds an Apalache inductive-invariant "
+        "check of the integer abstraction RingIdxAbs (slot arithmetic of push/pop/evict for ANY capacity and unbounded histories).",
+   note="Trusted: TLC, Apalache (thorough), the harness loggers, i32 as representative element type. Memory safety is observed only via guard "
         "words, sentinels in dead slots and process crashes (unsafe-precondition aborts are attributed to the stimulus); "
         "UB without observable effect is out of reach. Capacities above 4 are covered by random histories, not exhaustively.",
    design="5/C06"),
@@ -199,8 +200,9 @@ CLAIMED = {
         "hint). TLC checks ChunkCount/ChunkContent/Coverage/HintOK for L 0..10, b 2..5, h 1..12 (quick; larger thorough) and emits every (L,b,h) x "
         "window x frame format; the harness runs them and random L <= 4096, and TLC validates the chunk schedule, every chunk sample bit for bit "
         "against SampleFormats.MulAmp with the window values observed from the stand-alone Window, the Hann shape (special points, symmetry, ends, "
-        "centre, monotone, range) and the size hint before every next().",
-   note="Trusted: TLC, Big/Dyadic/SampleFormats, harness loggers. Hann accuracy away from special points is bounded only by symmetry/range/monotonicity.",
+        "centre, monotone, range) and the size hint before every next(). Thorough adds the Apalache inductive invariant of WindowerAbs (schedule and "
+        "size hint for ANY slice length, bin and hop, unbounded call sequences).",
+   note="Trusted: TLC, Apalache (thorough), Big/Dyadic/SampleFormats, harness loggers. Hann accuracy away from special points is bounded only by symmetry/range/monotonicity.",
    design="5/C20"),
 }
 NOT_YET = "not claimed"
